@@ -5,11 +5,13 @@ import subprocess
 
 FAM_NOTE = ("Trusted: TLC and the community modules, the projector (harness/src/proj.rs), tokio's paused clock; assumptions A1 (timers are serviced before the "
             "next deadline) and A2 (local steps are urgent), timeouts >= 1 s, segment size >= 16 bytes. Bounds per configuration in spec/mc/configs.json "
-            "(files of 0-5 units, <= 1 link fault quick / 2-3 thorough, limit 2-3); Level D fault plans from FaultPlans.tla (F = 1 quick / 2 thorough).")
+            "(files of 0-5 units, 1 fault of any kind or 2 cheap faults quick / one more thorough, limit 2-3); Level D fault plans from FaultPlans.tla (F = 1 quick / 2 thorough). "
+            "C17 and C03 also run the Apalache lemma TimerInd.tla (unbounded inductive invariant of the counter).")
 
-FAM_TECH = ("explicit TLA+ model Cfdp.tla (Sender + Receiver + link + clock + users) model-checked by TLC with the property monitor Props.tla; every edge of the bounded "
-            "state graph replayed on the real transaction objects (Level T) and TLC-enumerated fault plans run on real Daemons (Level D); every recorded step "
-            "validated by TLC (CfdpTrace.tla: property monitor + conformance with the model)")
+FAM_TECH = ("explicit TLA+ model Cfdp.tla (Sender + Receiver + link + clock + users + adversary) model-checked by TLC with the property monitor Props.tla (safety on every "
+            "step; termination / success under fairness where they apply); every edge of the bounded state graph replayed on the real transaction objects (Level T) and "
+            "TLC-enumerated fault plans run on real Daemons (Level D); every recorded step validated by TLC (CfdpTrace.tla: property monitor + conformance with the model); "
+            "where the code leaves the model (DRIFT) TLC continues the model from the recorded real state (Contin.tla) and its counterexamples are replayed on the real code")
 
 FAM_TAIL = (" The verdict is TLC's evaluation of the Props.tla predicates on events recorded from the real code; TLC evaluates the same predicates on every step of "
             "the exhaustively explored model, and CfdpTrace.tla compares every real step with the model's prediction, so the exhaustive result transfers wherever "
